@@ -218,7 +218,31 @@ class PairOrder:
 PAIR_ORDER = PairOrder()
 
 
+class PairList(list):
+    """Marker: a pair list whose order was chosen by the explorer."""
+
+
+def scheduled_sorted(iterable, *a, **k):
+    """Stand-in for `sorted` inside rnapolis.annotator: a PairList under an active schedule keeps the explorer's order."""
+    import builtins
+
+    if isinstance(iterable, PairList) and PAIR_ORDER.fn is not None and not a and not k:
+        return list(iterable)
+    return builtins.sorted(iterable, *a, **k)
+
+
+def install_pair_order_seam(annotator_module):
+    """Returns True if the seam could be installed (module still uses a module-level KDTree name)."""
+    if not hasattr(annotator_module, "KDTree"):
+        return False
+    annotator_module.KDTree = make_scheduled_kdtree()
+    annotator_module.sorted = scheduled_sorted
+    return True
+
+
 def make_scheduled_kdtree():
+    from builtins import sorted as builtins_sorted
+
     from scipy.spatial import KDTree as RealKDTree
 
     class ScheduledKDTree:
@@ -227,7 +251,7 @@ def make_scheduled_kdtree():
             self._data = data
 
         def query_pairs(self, r, *a, **k):
-            return PAIR_ORDER.order(self._tree.query_pairs(r, *a, **k), self._data, r)
+            return PairList(PAIR_ORDER.order(builtins_sorted(self._tree.query_pairs(r, *a, **k)), self._data, r))
 
         def __getattr__(self, name):
             return getattr(self._tree, name)
